@@ -1418,12 +1418,15 @@ func (e *BigMessage) ReadAll() ([]byte, error) {
 				return nil, err // deemed critical
 			}
 		}
-		n, err := c.bufr.Read(message[done:])
+		n, err := io.ReadFull(c.bufr, message[done:])
 		done += n
-		if err != nil && done < len(message) {
-			if errors.Is(err, io.EOF) {
-				err = io.ErrUnexpectedEOF
+		if err != nil {
+			// Allow deadline expiry if at least one byte was transferred.
+			var ne net.Error
+			if n != 0 && errors.As(err, &ne) && ne.Timeout() {
+				continue
 			}
+
 			// position in stream lost
 			c.toOffline()
 			return nil, err
